@@ -245,10 +245,15 @@ func (m *mappers) ToCharGroup(r comb.Result) (comb.Result, bool) {
 	items := r2.Val.(comb.List)
 
 	charMap := make([]bool, len(parser.RuneClasses["ASCII"].Runes()))
+	var others []rune // The characters of the group that are not ASCII characters
 	for _, r := range items {
 		if chars, ok := r.Bag[bagKeyChars].([]rune); ok {
 			for _, c := range chars {
-				charMap[c] = true
+				if int(c) < len(charMap) {
+					charMap[c] = true
+				} else {
+					others = append(others, c)
+				}
 			}
 		}
 	}
@@ -258,6 +263,15 @@ func (m *mappers) ToCharGroup(r comb.Result) (comb.Result, bool) {
 		if (!neg && marked) || (neg && !marked) {
 			alt.Exprs = append(alt.Exprs, &Char{
 				Val: rune(i),
+			})
+		}
+	}
+
+	// A negated group is taken relative to the ASCII characters, so the other characters matter only when it is not negated.
+	if !neg {
+		for _, c := range others {
+			alt.Exprs = append(alt.Exprs, &Char{
+				Val: c,
 			})
 		}
 	}
